@@ -177,6 +177,16 @@ CHECKS = {
         "level_note": "Trusted: oracle optimum; determinism of the sequential solver (Fx hasher, no clock).",
         "assumptions": COMMON_ASSUMPTIONS,
     },
+
+    "C20": {
+        "cmd": "c20", "flavours": ["checked"], "level": "exploration", "engine_name": "vh-seq", "design_ref": "DESIGN.md §4 C20",
+        "budget": {"quick": 20, "thorough": 300},
+        "technique": "runtime monitoring: as_graphviz of every compiled diagram of the direct driver is parsed by a strict DOT reader and compared with a shadow diagram reconstructed from the callbacks (transition / transition_cost / merge / relax / fast_upper_bound) of the same compilation",
+        "rule": "direct driver of C06 (families T/K/P incl. long arcs and infeasible sub-problems, comp types exact/restricted/relaxed, widths 1..4, incumbents that prune everything, LEL/frontier/pooled, fresh and reused objects); after every completed compilation 8 of the 64 VizConfig flag combinations are rendered (always: everything shown; default-like; show_deleted+group_merged; 5 pseudo-random ones - all 64 are covered over a run). Each rendering must: not panic; be accepted by the strict reader of the DOT subset (digraph, node/edge statements, quoted strings with escapes, attribute lists without duplicates, subgraph clusters); declare each id once; labels list exactly the items the flags request; multiset of node state labels == shadow nodes (minus the nodes the shadow knows to be deleted when show_deleted = false: candidates of a squashed layer that received no fast_upper_bound call); multiset of (from state, to state, '(x<var> = <val>)\\ncost = <c>') == shadow arcs into drawn nodes; every edge end is declared or hidden by the configuration; terminal declared iff the shadow's last layer is non-empty with one edge per node of it; clusters only when requested and only listing declared ids. The reader self-tests on malformed inputs. Non-trivial = diagram with >= 1 merged or deleted node; distinct by (instance, diagram, root, width, incumbent, type, flag set).",
+        "level_text": "Exploration: ~10^6 renderings per run each compared structurally (nodes, arcs with decision and cost, terminal) with an independent reconstruction of the same diagram.",
+        "level_note": "Interrupted and never-compiled diagrams are outside 'any compiled diagram'. State types whose Debug output is plain (no double quote). Node values/bounds in labels are not compared (the property does not mention them).",
+        "assumptions": COMMON_ASSUMPTIONS + ["graphviz itself is not installed: well-formedness = acceptance by the harness's strict reader of the DOT subset"],
+    },
 }
 
 HOOK_COMMITS = ["da0cac8"]
